@@ -3,6 +3,7 @@ import re
 
 import broker
 import engine
+import proxyq
 import mir
 import proto
 from c02 import all_match, any_match
@@ -39,6 +40,9 @@ def run(rep):
     cd, cinfo, chm = proto.client_dispatch(prog)
     bsends = broker.all_sends(prog)
     csends = proto.client_sends(prog)
+
+    # ---- R6 drop-driven proxy requests match what the client registered --------------------------
+    proxyq.check(rep, prog, "C06-R6")
 
     # ---- R1 direction tables -----------------------------------------------------------------------
     rep.check(bd is not None and not binfo["wildcard"] and len(bd) >= 63, "C06-R1", bhm.def_, "broker-dispatch-exhaustive", "the broker's dispatch must name all message kinds without wildcard", detail={"kinds": len(bd or {})})
